@@ -15,7 +15,8 @@ import fuzzylite as fl
 PID = "C17"
 MODULES = ["FlVerif.Props.C17"]
 NAMESPACE = "C17"
-TIE_A = ["code:fuzzylite.term.Function.infix_to_postfix", "code:fuzzylite.term.Function.parse"]
+TIE_A = ["code:fuzzylite.term.Function.infix_to_postfix", "code:fuzzylite.term.Function.parse",
+         "code:fuzzylite.term.Function.Node.evaluate", "code:fuzzylite.term.Function.evaluate", "code:fuzzylite.term.Function.membership"]
 RULE = ("typed expression trees to depth 5 over all 13 operators, all 34 functions/constants, literals and 1-3 engine / term "
         "variables and x, written with minimal | random redundant | full parentheses and random spacing, evaluated on "
         "scalars and on arrays (mixed with scalars); ill-formed variants (operand deleted, arity changed, parenthesis "
